@@ -74,8 +74,14 @@ pub fn simplify_case(cx: &mut Ctx, n: u64, case: &Value) {
     // sums gives IS the input): the result is still a subsequence of exactly these coordinates with both ends, and the index
     // variant names exactly the coordinates the coordinate variant returns (WHICH vertices are kept is not judged here: a distance
     // or area that equals eps exactly on the lattice is decided by rounding after the translation)
-    for (ox, oy) in [(8_238_310.24f64, -4_942_194.78f64), (-2_097_153.3, 1_048_577.1)] {
-        let far: Vec<Coord<f64>> = cs.iter().map(|c| Coord { x: c.x + ox, y: c.y + oy }).collect();
+    for (sc, ox, oy) in [(1.0f64, 8_238_310.24f64, -4_942_194.78f64), (1.0, -2_097_153.3, 1_048_577.1), (4_119_100.13, -8_238_310.24, 4_942_194.78), (-1_400_000.77, 2_800_000.9, -1_400_000.3), (0.37, 3_000_000.7, -1_200_000.1)] {
+        // (a scale factor spreads the vertices over several binades around the far first vertex)
+        let far: Vec<Coord<f64>> = cs.iter().map(|c| Coord { x: c.x * sc + ox, y: c.y * sc + oy }).collect();
+        // one variant replaces the lattice values by unrelated decimal numbers of very different size (projected coordinates)
+        const TX: [f64; 6] = [-8_238_310.24, -14_226.63, 1_492_232.65, 261_845.71, -7_910_240.56, 33.125];
+        const TY: [f64; 6] = [4_942_194.78, 6_678_077.70, 6_250_564.35, 5_215_074.24, 6_894_701.26, -0.7];
+        let far: Vec<Coord<f64>> = if sc < 0.0 { cs.iter().map(|c| Coord { x: TX[(c.x.abs() as usize) % 6], y: TY[(c.y.abs() as usize) % 6] }).collect() } else { far };
+        let eps = if sc < 0.0 { 1000.0 } else { eps * sc };
         let lf = LineString::new(far.clone());
         let pickf = |idx: &[usize]| -> Vec<Coord<f64>> { idx.iter().map(|i| far[*i]).collect() };
         let (ri, vi) = (guard(|| lf.simplify_idx(eps)), guard(|| lf.simplify_vw_idx(eps)));
@@ -83,8 +89,8 @@ pub fn simplify_case(cx: &mut Ctx, n: u64, case: &Value) {
         let shape = |i: &Vec<usize>| i.windows(2).all(|w| w[0] < w[1]) && (far.is_empty() && i.is_empty() || !far.is_empty() && i.first() == Some(&0) && i.last() == Some(&(far.len() - 1)));
         let ok_r = matches!((&ri, &rc), (Ok(i), Ok(c)) if *c == pickf(i) && shape(i));
         let ok_v = matches!((&vi, &vc), (Ok(i), Ok(c)) if *c == pickf(i) && shape(i));
-        if ok_r { cx.ok("rdp_far_from_origin"); } else { cx.bad("C09", "rdp_far_from_origin", case, json!({"what": format!("input translated by ({ox}, {oy}): simplify / simplify_idx"), "idx": format!("{ri:?}"), "coords": format!("{rc:?}"), "admissible": rdp})); }
-        if ok_v { cx.ok("vw_far_from_origin"); } else { cx.bad("C09", "vw_far_from_origin", case, json!({"what": format!("input translated by ({ox}, {oy}): simplify_vw / simplify_vw_idx"), "idx": format!("{vi:?}"), "coords": format!("{vc:?}"), "admissible": vw})); }
+        if ok_r { cx.ok("rdp_far_from_origin"); } else { cx.bad("C09", "rdp_far_from_origin", case, json!({"what": format!("input scaled by {sc} and translated by ({ox}, {oy}): simplify / simplify_idx"), "idx": format!("{ri:?}"), "coords": format!("{rc:?}"), "admissible": rdp})); }
+        if ok_v { cx.ok("vw_far_from_origin"); } else { cx.bad("C09", "vw_far_from_origin", case, json!({"what": format!("input scaled by {sc} and translated by ({ox}, {oy}): simplify_vw / simplify_vw_idx"), "idx": format!("{vi:?}"), "coords": format!("{vc:?}"), "admissible": vw})); }
     }
     // MultiLineString: member-wise
     let mls = MultiLineString::new(vec![ls.clone(), ls.clone()]);
